@@ -118,7 +118,18 @@ static inline void wv_mutex_unlock(wv_mutex *m)
 void wv_cv_wait(wv_cv *cv, wv_mutex *m);
 void wv_cv_notify_all(wv_cv *cv);
 void wv_cv_notify_one(wv_cv *cv);
-void wv_thread_join(wv_thread *t);
+/* R13 std::thread as a ghost record: which function a thread object was started with and with which arguments; join requires a
+   started, not yet joined thread (std::thread::join on anything else throws).  What the thread does while it runs is the rely of the
+   thread-modular contracts (pipeline.h), not modelled here. */
+static inline void wv_thread_spawn_multiruncrypt_file(wv_thread *t, unsigned char id, void *mode)
+{
+  t->started = 1; t->joined = 0; t->fn = 1; t->arg = id; t->obj = mode;
+}
+static inline void wv_thread_join(wv_thread *t)
+{
+  __CPROVER_assert(t->started && !t->joined, "[C04] join of a thread that was started and has not been joined yet");
+  t->joined = 1;
+}
 
 /* <ctype.h> in the C locale (the program never calls setlocale): glibc's isalnum(c) expands to a table lookup through
    __ctype_b_loc(); the model provides the alnum bit (_ISalnum == 8) for the ASCII letters and digits only */
